@@ -117,6 +117,9 @@ func runMain(args []string) {
 func printResult(r *Result, loadS float64) {
 	fmt.Printf("harness=%s load=%.2fs explore=%.2fs paths=%d forks=%d steps=%d concretize=%d domDecided=%d\n", r.Harness, loadS, r.WallS, r.Paths, r.Forks, r.Steps, r.Concretize, r.DomDecided)
 	fmt.Printf("asserts=%d discharged=%d unknown=%d | solver queries=%d sat=%d unsat=%d unknown=%d time=%.2fs\n", r.Asserts, r.Discharged, r.Unknown, r.Queries, r.Sat, r.Unsat, r.SolverUnknown, r.SolverS)
+	if r.Err != "" {
+		fmt.Printf("ENGINE ERROR: %s\n", r.Err)
+	}
 	fmt.Printf("path ends: %v\n", r.Ends)
 	for k, v := range r.EndSamples {
 		fmt.Printf("  sample %s: %s\n", k, v)
